@@ -350,6 +350,7 @@ def _merge_database_dicts(*database_dicts):
                 f'{duplicate_keys}'
             )
 
-            result['alias'].update(database_dict['alias'])
+            # The first database may have no alias section.
+            result.setdefault('alias', {}).update(database_dict['alias'])
 
     return result
